@@ -31,6 +31,9 @@ Fixpoint alookup {V} (k : string) (d : list (string * V)) : option V :=
   | (k', v) :: r => if String.eqb k k' then Some v else alookup k r
   end.
 
+Fixpoint has_dup_s (l : list string) : bool :=
+  match l with [] => false | x :: r => str_in x r || has_dup_s r end.
+
 (* d[k] = v : in place when the key exists, appended otherwise *)
 Fixpoint aset {V} (d : list (string * V)) (k : string) (v : V) : list (string * V) :=
   match d with
@@ -111,6 +114,9 @@ Section Construct.
           match alookup h funcs with
           | None => Err EKey
           | Some sig =>
+              (* since the D46 repair an application with a wrong number of arguments or a repeated argument is a
+                 ValueError ('(f)' for an n-ary f included) *)
+              if strict && (negb (Nat.eqb (List.length args) (List.length sig)) || has_dup_s args) then Err EValue else
               match args with
               | [] => Ok (NFl {| nf_name := h; nf_params := sig |})
               | _ => Ok (NFl {| nf_name := h; nf_params := dedup_keys [] (firstn (List.length sig) args) |})
